@@ -296,3 +296,27 @@ Proof.
                 with Some _ => true | None => false end = true) by (timeout 60 vm_compute; reflexivity).
     destruct (pblocks_run _ _ _ _ _) as [[ebs z]|]; [eauto|discriminate].
 Qed.
+
+(* ---- FSE table descriptions (coq/Codec/EncodeFse.v: FSE_writeNCount): whatever normalised distribution the table builder chose,
+        the description the writer model emits is read back by the reference decoder as the same accuracy log and counts, whatever
+        follows it; hence a table in FSE_Compressed_Mode is the table built from those counts (hypothesis of
+        C01_compressed_block_round_trip for mode 2) ---- *)
+From ZV.Codec Require Import EncodeFse EncodeFseProofs.
+
+Theorem C01_fse_table_description_round_trip : forall maxSV maxLog log counts d tail,
+  write_ncount log counts = Some d ->
+  log <= maxLog -> lenN counts <= maxSV + 1 -> lenN counts <= 256 -> Forall (fun c => (-1 <= c)%Z) counts ->
+  read_ncount maxSV maxLog (d ++ tail) = Ok (log, counts, lenN d).
+Proof. exact read_write_ncount. Qed.
+Print Assumptions C01_fse_table_description_round_trip.
+
+Theorem C01_fse_compressed_mode_table : forall maxSV maxLog deflog defnorm prev log counts d t tail,
+  write_ncount log counts = Some d -> build_dtable log counts = Ok t ->
+  log <= maxLog -> lenN counts <= maxSV + 1 -> lenN counts <= 256 -> Forall (fun c => (-1 <= c)%Z) counts ->
+  seq_table 2 maxSV maxLog deflog defnorm prev (d ++ tail) = Ok (t, tail).
+Proof. exact seq_table_compressed. Qed.
+Print Assumptions C01_fse_compressed_mode_table.
+
+(* non-vacuity: the predefined literal-length distribution has a description under the writer model *)
+Example C01_ncount_example : exists d, write_ncount 6 spec_LL_default = Some d /\ lenN d = 20.
+Proof. eexists. split; [timeout 60 vm_compute; reflexivity|reflexivity]. Qed.
